@@ -116,7 +116,8 @@ func genC09Store(rt *rapid.T, kind lib.StoreKind) []lib.Pair {
 		case lib.KInt:
 			v = rapid.SampledFrom([]string{"1", "11", "2", "0", "1", "-1"}).Draw(rt, "vi")
 		case lib.KFloat:
-			v = rapid.SampledFrom([]string{"1.5", "0.5", "2", "1.5", "0.25"}).Draw(rt, "vf")
+			// two values that agree in six decimals are different values
+			v = rapid.SampledFrom([]string{"1.5", "0.5", "2", "1.5", "0.25", "0.1234561", "0.1234562", "2.0000001"}).Draw(rt, "vf")
 		default:
 			v = rapid.SampledFrom(c09Vals).Draw(rt, "v")
 		}
